@@ -1123,19 +1123,75 @@ def check_truncate(ctx, ref, cfg, row_perm='random', only=None):
                                                     'new_hierarchy': bad}))
 
 
-def check_merge(ctx, ref, cfg, rng, subsets=None, row_perm='random'):
+def merge_plan(rng, ref):
+    """3-5 per-dataset cell sets with designed win / lose patterns: one
+    dataset with the most cells overall, datasets that hold the largest
+    population of some cluster, datasets that win NO cluster (strictly fewer
+    cells than another dataset in every cluster), exact ties; the file names
+    are dealt out at random so that every sorted-path order of the roles
+    occurs (a dominated dataset before a winner, the largest one first /
+    last / in the middle)"""
+    labelled = [nm for nm in ref.names if ref.label[nm] is not None]
+    by = {}
+    for nm in labelled:
+        by.setdefault(ref.label[nm], []).append(nm)
+    r = rng.random()
+    if r < 0.25 or len(labelled) < 4:
+        n_sets = rng.choice([1, 2, 3, 4])
+        subsets = [sorted(rng.sample(labelled, rng.randint(1, len(labelled))))
+                   for _ in range(n_sets)]
+        if n_sets >= 2 and rng.random() < 0.5:
+            subsets[1] = list(subsets[0])     # full tie
+    else:
+        n_sets = rng.choice([3, 3, 4, 4, 5])
+        rare = [c for c in by if len(by[c]) >= 2]
+        rng.shuffle(rare)
+        n_win = rng.randint(1, max(1, min(len(rare), n_sets - 2)))
+        rare = rare[:n_win]
+        big = []
+        for c, cells in by.items():
+            if c in rare:
+                big += rng.sample(cells, rng.randint(0, len(cells) - 1))
+            else:
+                big += cells
+        if not big:
+            big = list(labelled[:1])
+        subsets = [sorted(big)]
+        bigc = {c: [x for x in big if ref.label[x] == c] for c in by}
+        for c in rare:
+            w = list(by[c])
+            for c2, cells in bigc.items():
+                if c2 != c and len(cells) > 1 and rng.random() < 0.5:
+                    w += rng.sample(cells, rng.randint(0, len(cells) - 1))
+            subsets.append(sorted(w))
+        while len(subsets) < n_sets:
+            # wins nothing: strictly below the big dataset in every cluster
+            dom = []
+            for c, cells in bigc.items():
+                if len(cells) > 1:
+                    dom += rng.sample(cells, rng.randint(0, len(cells) - 1))
+            if not dom:
+                dom = list(subsets[0])       # nothing smaller exists: a tie
+            subsets.append(sorted(dom))
+        order = list(range(len(subsets)))
+        rng.shuffle(order)
+        subsets = [subsets[i] for i in order]
+    pool = ['ds_a.h5', 'ds_b.h5', 'ds_c.h5', 'ds_d.h5', 'ds_e.h5', 'Ds_A.h5']
+    names = rng.sample(pool, len(subsets))
+    return subsets, names
+
+
+def check_merge(ctx, ref, cfg, rng, subsets=None, row_perm='random',
+                names=None):
     from cell_type_mapper.diff_exp.precompute_utils import (
         merge_precompute_files)
     tol = tol_of(cfg)
     labelled = [nm for nm in ref.names if ref.label[nm] is not None]
     if subsets is None:
-        n_sets = rng.choice([1, 2, 3])
-        subsets = []
-        for i in range(n_sets):
-            k = rng.randint(1, len(labelled))
-            subsets.append(sorted(rng.sample(labelled, k)))
-        if n_sets >= 2 and rng.random() < 0.5:
-            subsets[1] = list(subsets[0])     # full tie
+        subsets, names = merge_plan(rng, ref)
+    if names is None:
+        names = ['ds_b.h5', 'ds_a.h5', 'ds_c.h5', 'ds_d.h5', 'ds_e.h5'][
+            :len(subsets)]
     n_sets = len(subsets)
     if row_perm == 'random':
         row_perm = random_perm(rng, len(ref.leaves)) \
@@ -1143,11 +1199,11 @@ def check_merge(ctx, ref, cfg, rng, subsets=None, row_perm='random'):
     ctx.count('merge-rows:%s' % ('permuted' if row_perm is not None
                                  else 'alphabetical'))
     detail = ref_detail(ref, cfg, {'kind': 'merge', 'subsets': subsets,
-                                   'row_perm': row_perm})
+                                   'row_perm': row_perm,
+                                   'file_names': names})
     with pipeline.workdir('c09m_') as d:
         paths = []
         per = []
-        names = ['ds_b.h5', 'ds_a.h5', 'ds_c.h5']
         for i, sub in enumerate(subsets):
             sd = pathlib.Path(d) / ('set%d' % i)
             sd.mkdir()
@@ -1358,6 +1414,8 @@ def run(ctx):
     n_refs = 32 if quick else 220
     n_splits = 4 if quick else 6
     run_big(ctx, rng)
+    for _ in range(5 if quick else 30):
+        check_abc(ctx, rng)
     for i in range(n_refs):
         ref = Reference(rng, small=(i % 3 == 0))
         baseline = None
@@ -1419,6 +1477,248 @@ def check_var_order(ctx, rng, ref, cell_set, baseline):
     check_run(ctx, ref, cfg, baseline=baseline)
 
 
+# ---------------------------------------------------------------------------
+# the ABC-atlas entry point (cli/precompute_stats_abc.py), split_by_dataset
+# ---------------------------------------------------------------------------
+
+ABC_LABELS = ['WMB-10Xv2', 'Lab B 10Xv3', 'Zhuang-ABCA-1/2', 'donn\u00e9es 2',
+              'a b/c d', 'plain', 'X/Y', 'WMB-10XMulti', ' lead', 'Z\u00fcrich']
+
+
+def abc_reference(rng):
+    """a Reference whose taxonomy can be written as the ABC release CSVs
+    (labels without commas / quotes, unique across levels)"""
+    depth = rng.choice([1, 2, 3, 3])
+    level_names = ['class', 'subclass', 'cluster'][3 - depth:]
+    raw = gen.random_tree(rng, max_depth=depth, max_top=2, max_children=3,
+                          rows=False, max_leaves=6, level_names=level_names)
+    while not all(l in raw for l in level_names):
+        raw = gen.random_tree(rng, max_depth=depth, max_top=2,
+                              max_children=3, rows=False, max_leaves=6,
+                              level_names=level_names)
+    raw.pop('metadata', None)
+    ren = {}
+    for lvl in level_names:
+        keys = list(raw[lvl].keys())
+        order = list(range(len(keys)))
+        rng.shuffle(order)
+        for k, i in zip(keys, order):
+            ren[(lvl, k)] = '%s_%d' % (lvl[:4].upper(), i)
+    tree = {'hierarchy': list(level_names)}
+    for li, lvl in enumerate(level_names):
+        tree[lvl] = {}
+        for k, kids in raw[lvl].items():
+            tree[lvl][ren[(lvl, k)]] = [] if li == depth - 1 else [
+                ren[(level_names[li + 1], c)] for c in kids]
+    ref = Reference.__new__(Reference)
+    ref.tree = tree
+    ref.h = list(level_names)
+    ref.leaf_level = level_names[-1]
+    ref.leaves = list(tree[ref.leaf_level].keys())
+    ref.n_genes = rng.randint(1, 4)
+    ref.genes = gen.fresh_names(rng, ref.n_genes, prefix='g')
+    ref.genes = [g.replace(',', ';').replace('"', "'") for g in ref.genes]
+    if len(set(ref.genes)) != ref.n_genes:
+        ref.genes = ['gene_%d' % i for i in range(ref.n_genes)]
+    n_cells = rng.randint(max(4, len(ref.leaves)), 40)
+    ref.names = ['cell_%04d' % i for i in rng.sample(range(5000), n_cells)]
+    ref.label = {}
+    for nm in ref.names:
+        ref.label[nm] = None if rng.random() < 0.15 else rng.choice(ref.leaves)
+    # every cluster of a release has at least one cell in cell_metadata.csv
+    for leaf, nm in zip(ref.leaves, rng.sample(ref.names, len(ref.leaves))):
+        ref.label[nm] = leaf
+    nprng = np.random.default_rng(rng.randrange(2 ** 31))
+    ref.X = nprng.integers(0, 60, (n_cells, ref.n_genes)).astype(float)
+    ref.X[nprng.random(ref.X.shape) < 0.3] = 0.0
+    ref.ghost = {}
+    return ref
+
+
+def write_abc_csvs(d, ref, dataset_of, with_dataset_col=True):
+    import csv
+    d = pathlib.Path(d)
+    anc = ref.ancestors()
+    alias = {l: 100 + i for i, l in enumerate(sorted(ref.leaves))}
+    term = d / 'cluster_annotation_term.csv'
+    with open(term, 'w', newline='') as f:
+        w = csv.writer(f)
+        w.writerow(['label', 'cluster_annotation_term_set_label',
+                    'parent_term_label', 'parent_term_set_label'])
+        for li, lvl in enumerate(ref.h):
+            for node in ref.tree[lvl]:
+                if li == 0:
+                    w.writerow([node, lvl, '', ''])
+                else:
+                    par = [p for p, kids in ref.tree[ref.h[li - 1]].items()
+                           if node in kids][0]
+                    w.writerow([node, lvl, par, ref.h[li - 1]])
+    memb = d / 'cluster_to_cluster_annotation_membership.csv'
+    with open(memb, 'w', newline='') as f:
+        w = csv.writer(f)
+        w.writerow(['cluster_annotation_term_set_label',
+                    'cluster_annotation_term_set_name',
+                    'cluster_annotation_term_label',
+                    'cluster_annotation_term_name', 'cluster_alias'])
+        for leaf in ref.leaves:
+            for lvl in reversed(ref.h):
+                w.writerow([lvl, lvl + '_name', anc[leaf][lvl],
+                            anc[leaf][lvl] + ' readable', alias[leaf]])
+    meta = d / 'cell_metadata.csv'
+    with open(meta, 'w', newline='') as f:
+        w = csv.writer(f)
+        head = ['cell_label', 'library', 'cluster_alias']
+        if with_dataset_col:
+            head.append('dataset_label')
+        w.writerow(head)
+        for nm in ref.names:
+            if ref.label[nm] is None:
+                continue        # cells no csv mentions
+            row = [nm, 'lib0', alias[ref.label[nm]]]
+            if with_dataset_col:
+                row.append(dataset_of[nm])
+            w.writerow(row)
+    return term, memb, meta
+
+
+def check_abc(ctx, rng, case=None):
+    """PrecomputationABCRunner.run() (object made with __new__, .args filled
+    by hand: the argschema front end cannot be constructed here) with
+    split_by_dataset: every per-dataset file must be the direct census of
+    that dataset's cells, the combined file per cluster the row of a dataset
+    with the most cells"""
+    from cell_type_mapper.cli.precompute_stats_abc import (
+        PrecomputationABCRunner)
+    if case is None:
+        ref = abc_reference(rng)
+        n_ds = rng.choice([1, 2, 2, 3, 3])
+        labels = rng.sample(ABC_LABELS, n_ds)
+        while len(set(l.replace(' ', '_').replace('/', '.')
+                      for l in labels)) != n_ds:
+            labels = rng.sample(ABC_LABELS, n_ds)
+        dataset_of = {nm: rng.choice(labels) for nm in ref.names}
+        cfg = RunConfig(rng, ref, force={
+            'cell_set': None, 'norm': 'raw', 'dtype': 'float64',
+            'copy_over': False, 'rows': 10000})
+        split = rng.random() < 0.85
+        with_col = rng.random() < 0.9
+    else:
+        ref, cfg = ref_from_detail(case)
+        labels, dataset_of = case['labels'], case['dataset_of']
+        split, with_col = case['split'], case['with_col']
+    detail = ref_detail(ref, cfg, {'kind': 'abc', 'labels': labels,
+                                   'dataset_of': dataset_of, 'split': split,
+                                   'with_col': with_col})
+    tol = tol_of(cfg)
+    ctx.count('abc:datasets=%d' % len(labels))
+    ctx.count('abc:split=%s,col=%s' % (split, with_col))
+    for l in labels:
+        if ' ' in l or '/' in l:
+            ctx.count('abc:label-with-blank-or-slash')
+    with pipeline.workdir('c09abc_') as d:
+        d = pathlib.Path(d)
+        paths = write_inputs(d, ref, cfg)
+        term, memb, meta = write_abc_csvs(d, ref, dataset_of, with_col)
+        out_dir = d / 'output'
+        out_dir.mkdir()
+        scratch = d / 'scratch'
+        scratch.mkdir()
+        runner = PrecomputationABCRunner.__new__(PrecomputationABCRunner)
+        runner.args = {
+            'h5ad_path_list': [str(q) for q in paths],
+            'cell_metadata_path': str(meta),
+            'cluster_annotation_path': str(term),
+            'cluster_membership_path': str(memb),
+            'hierarchy': list(ref.h), 'normalization': 'raw',
+            'output_path': str(out_dir / 'precomputed_stats.h5'),
+            'split_by_dataset': split, 'clobber': False,
+            'n_processors': cfg.n_proc, 'tmp_dir': str(scratch),
+            'log_level': 'ERROR'}
+        with pipeline.quiet():
+            try:
+                runner.run()
+                err = None
+            except Exception as e:   # noqa
+                err = classify(e)
+        ctx.case(json.dumps(detail, sort_keys=True, default=repr)
+                 if len(labels) > 1 and split and with_col else None)
+        if err is not None:
+            ctx.violation('C09/abc/crash/' + err.split(':')[0],
+                          'the ABC entry point fails on a valid release: '
+                          + err, detail)
+            return
+        left = sorted(q.name for q in scratch.iterdir())
+        if left:
+            ctx.violation('C09/abc/scratch-left',
+                          'the ABC entry point leaves %r in tmp_dir' % left[:3],
+                          detail)
+        files = {}
+        if split and with_col:
+            used = [l for l in labels if any(
+                dataset_of[nm] == l and ref.label[nm] is not None
+                for nm in ref.names)]
+            for l in used:
+                san = l.replace(' ', '_').replace('/', '.')
+                files[l] = out_dir / ('precomputed_stats.%s.h5' % san)
+            files['combined'] = out_dir / 'precomputed_stats.combined.h5'
+        else:
+            used = []
+            files[None] = out_dir / 'precomputed_stats.h5'
+        per_census = {}
+        for key, pth in files.items():
+            if not pth.is_file():
+                ctx.violation('C09/abc/file-missing',
+                              'no statistics file for %r' % (key,), detail)
+                continue
+            got = read_stats(pth)
+            if key == 'combined':
+                continue
+            c2 = copy.copy(cfg)
+            if key is not None:
+                c2.cell_set = [nm for nm in ref.names if dataset_of[nm] == key]
+            want = census(ref, c2)
+            per_census[key] = want
+            probs = check_against_census(got, want, ref.leaves, ref.genes,
+                                         tol, ref.n_genes)
+            if probs:
+                ctx.violation(
+                    'C09/abc/dataset-census/' + str(probs[0][0]),
+                    'the file of dataset %r is not the statistics of that '
+                    "dataset's cells: %r" % (key, probs[0]),
+                    dict(detail, dataset=key, problems=probs[:5]))
+        if 'combined' in files and files['combined'].is_file():
+            got = read_stats(files['combined'])
+            probs = []
+            for leaf in ref.leaves:
+                r = got['cluster_to_row'].get(leaf)
+                if r is None:
+                    probs.append(('cluster_to_row', leaf))
+                    continue
+                ns = {l: (per_census[l].get(leaf) or {'n': 0})['n']
+                      for l in used if l in per_census}
+                best = max(ns.values()) if ns else 0
+                ok = False
+                for l, n in ns.items():
+                    if n != best:
+                        continue
+                    one = {leaf: per_census[l].get(leaf)} \
+                        if per_census[l].get(leaf) else {}
+                    sub = dict(got, cluster_to_row={leaf: 0},
+                               n_cells=got['n_cells'][[r]],
+                               **{k: got[k][[r], :] for k in STAT_KEYS})
+                    if not check_against_census(sub, one, [leaf], ref.genes,
+                                                tol, ref.n_genes):
+                        ok = True
+                if not ok:
+                    probs.append(('row', leaf, int(got['n_cells'][r]), best))
+            if probs:
+                ctx.violation(
+                    'C09/abc/combined/' + str(probs[0][0]),
+                    'the combined file does not hold, per cluster, the row '
+                    'of the dataset with the most cells: %r' % (probs[0],),
+                    dict(detail, problems=probs[:5]))
+
+
 def run_big(ctx, rng):
     """clusters of 256-700+ cells spread over >= 2 workers: the totals of
     n_cells / gt0 / gt1 / ge1 exceed what an 8-bit array could hold although
@@ -1459,6 +1759,9 @@ def replay(ctx, data, from_corpus=False):
     if kind == 'names':
         stagefiles_util.replay_names(ctx, d)
         return
+    if kind == 'abc':
+        check_abc(ctx, None, case=d)
+        return
     if kind not in ('precompute', 'truncate', 'truncate-bad', 'merge', 'read'):
         if not from_corpus:
             print('nothing to replay for kind', kind)
@@ -1486,7 +1789,8 @@ def replay(ctx, data, from_corpus=False):
     elif kind == 'merge':
         check_merge(ctx, ref, cfg, None, subsets=d.get('subsets'),
                     row_perm=d.get('row_perm', list(
-                        reversed(range(len(ref.leaves))))))
+                        reversed(range(len(ref.leaves))))),
+                    names=d.get('file_names'))
     elif kind == 'read':
         check_read(ctx, ref, cfg, row_perm=d.get('row_perm', list(
             reversed(range(len(ref.leaves))))))
